@@ -162,6 +162,52 @@ Lemma lk_gp : mlookup "gp" mv_methods = Some ("gp", false, 2%nat) /\ mlookup "gp
 Proof. vm_compute. split; reflexivity. Qed.
 
 
+(* ================= 0c. the supported fragment, statically ================= *)
+Definition is_un (m : string) : bool := match mlookup m tape_methods with Some (_, _, 1%nat) => true | _ => false end.
+Definition is_bin (m : string) : bool := match mlookup m tape_methods with Some (_, _, 2%nat) => true | _ => false end.
+(* a member that MultiVector defines with swapped operands (a reflected dunder) *)
+Definition noswap_m (m : string) : bool := match mlookup m mv_methods with Some (_, true, _) => false | _ => true end.
+Definition is_neg (u : prefix) : bool := match u with PNeg => true | PInvert => false end.
+Definition sup_infix (o : infix) (nb1 nb2 : bool) : bool :=
+  if nb1 then (if nb2 then match o with IAdd | ISub | IMul => true | _ => false end
+               else match o with IAdd | ISub | IMul | IXor => true | _ => false end)
+  else true.
+
+Section Static.
+  Context {R : Type}.
+  (* the subexpression is a Python number in BOTH worlds (literal arithmetic); everything else is a
+     recorder on the compiled path *)
+  Fixpoint isnum (e : expr R) : bool :=
+    match e with
+    | ENum _ => true
+    | EPrefix u e1 => isnum e1 && is_neg u
+    | EInfix o e1 e2 => isnum e1 && isnum e2
+    | _ => false
+    end.
+  (* no explicit call  x.__rmul__(y) / x.__rxor__(y) ...  of a reflected member *)
+  Fixpoint noswap (e : expr R) : bool :=
+    match e with
+    | EArg _ | ENum _ => true
+    | EMeth1 _ e1 | EPrefix _ e1 | EPow e1 _ | EGrade e1 _ | ECoeff e1 _ | EDual e1 _ | EUndual e1 _
+    | ENorm e1 | ENormalized e1 => noswap e1
+    | EMeth2 m e1 e2 => noswap_m m && noswap e1 && noswap e2
+    | EInfix _ e1 e2 => noswap e1 && noswap e2
+    | ECall _ args => forallb noswap args
+    end.
+  (* the fragment on which the compiled function is guaranteed to return *)
+  Fixpoint supported (e : expr R) : bool :=
+    match e with
+    | EArg _ | ENum _ => true
+    | EMeth1 m e1 => supported e1 && (negb (isnum e1) && is_un m)
+    | EMeth2 m e1 e2 => supported e1 && (supported e2 && (negb (isnum e1) && is_bin m))
+    | EPrefix u e1 => supported e1 && (if isnum e1 then is_neg u else true)
+    | EInfix o e1 e2 => supported e1 && (supported e2 && sup_infix o (isnum e1) (isnum e2))
+    | EPow e1 _ | EGrade e1 _ | ECoeff e1 _ | EDual e1 _ | EUndual e1 _ | ENorm e1 | ENormalized e1 =>
+        supported e1 && negb (isnum e1)
+    | ECall _ args => forallb (fun a => supported a && negb (isnum a)) args
+    end.
+End Static.
+
 (* ================= 1. abstract part: any well-behaved table of generated functions ================= *)
 
 Section Abstract.
@@ -745,4 +791,442 @@ Section Abstract.
       destruct (Db cargs args' HEa vs Hrun) as [Hl [vs' [Hv' R']]].
       split; [exact Hl|]. exists vs'. rewrite run_TCall, Ea. cbn [bind]. split; [exact Hv' | exact R'].
   Qed.
+
+  (* the arguments of a call as recorder environment *)
+  Lemma nth_map_inv {X Y} (f : X -> Y) l i y : nth_error (map f l) i = Some y -> exists x, nth_error l i = Some x /\ y = f x.
+  Proof.
+    revert i. induction l as [|a l IH]; intros [|i] H; cbn in H; try discriminate.
+    - inversion H. exists a. auto.
+    - apply IH. exact H.
+  Qed.
+  Lemma EnvD_mvs xs xs' : Forall2 (@Permutation (Z * R)) xs xs' ->
+    EnvD (map keys xs) (map keys xs') (map vals xs) (map vals xs').
+  Proof.
+    intros Hp i ks ks' Hn Hn' vs Hv. cbn in Hv.
+    destruct (nth_map_inv _ _ _ _ Hn) as [x [Ex Ek]].
+    destruct (nth_map_inv _ _ _ _ Hn') as [x' [Ex' Ek']].
+    destruct (nth_error (map vals xs) i) as [vs0|] eqn:Ev; cbn in Hv; [|discriminate]. inversion Hv; subst vs0.
+    destruct (nth_map_inv _ _ _ _ Ev) as [x0 [Ex0 Ev0]].
+    assert (x0 = x) by (pose proof (eq_trans (eq_sym Ex0) Ex) as E0; inversion E0; reflexivity). subst x0.
+    destruct (Forall2_nth _ _ _ i x Hp Ex) as [x1 [Ex1 Hpx]].
+    assert (x1 = x') by (pose proof (eq_trans (eq_sym Ex1) Ex') as E0; inversion E0; reflexivity). subst x1. subst ks ks' vs.
+    split; [rewrite length_vals, length_keys; reflexivity|].
+    exists (vals x'). cbn. rewrite (map_nth_error vals i xs' Ex'). cbn. split; [reflexivity|].
+    split; [rewrite length_vals, length_keys; reflexivity|]. rewrite !combine_keys_vals. exact Hpx.
+  Qed.
+  Lemma Forall_wfk_keys xs : Forall wfm xs -> Forall wfk (map keys xs).
+  Proof. intros H. apply Forall_forall. intros ks Hk. apply in_map_iff in Hk. destruct Hk as [x [E Hx]]. subst.
+    eapply Forall_forall in H; [exact H | exact Hx]. Qed.
+  Lemma Forall2_perm_keys xs xs' : Forall2 (@Permutation (Z * R)) xs xs' -> Forall2 (@Permutation Z) (map keys xs) (map keys xs').
+  Proof. induction 1; cbn; constructor; [apply perm_keys|]; assumption. Qed.
+
+  (* Registry.__call__ does not depend on the storage order of its arguments, and returns a well-formed
+     multivector *)
+  Theorem registered_perm fuel k xs xs' m : Forall wfm xs -> Forall2 (@Permutation (Z * R)) xs xs' ->
+    reg fuel k xs = Ok m ->
+    wfm m /\ exists body ko' tb' vs',
+      nth_error bodies k = Some body /\ rec_ fuel (map keys xs') body = Ok (RRec ko' tb') /\
+      run (map vals xs') tb' = Ok vs' /\ length vs' = length ko' /\ wfk ko' /\ Permutation m (combine ko' vs').
+  Proof.
+    intros Hw Hp H. unfold registered, compile in H.
+    inv_bindn H as kt Hkt. destruct kt as [ko tb]. inv_bindn Hkt as body Hbody. inv_bindn Hkt as rb Hrb.
+    destruct rb as [c|ko0 tb0]; [discriminate|]. inversion Hkt; subst ko0 tb0. clear Hkt.
+    inv_bindn H as vs Hvs. inversion H; subst m. clear H.
+    destruct (nth_error bodies k) as [b|] eqn:Eb; cbn in Hbody; [|discriminate]. inversion Hbody; subst b.
+    destruct (record_perm fuel body (map keys xs) (map keys xs') (RRec ko tb)
+                (Forall_wfk_keys xs Hw) (Forall2_perm_keys xs xs' Hp) Hrb) as [r' [E [S D]]].
+    destruct r' as [c'|ko' tb']; [contradiction|]. destruct S as [Wko Pko].
+    destruct (D _ _ (EnvD_mvs xs xs' Hp) vs Hvs) as [Hl [vs' [Hv' [Hl' Hpv]]]].
+    split; [apply wfm_combine; assumption|].
+    exists body, ko', tb', vs'. repeat split; try assumption. exact (proj1 (wfk_perm ko ko' Wko Pko)). apply (wfk_perm ko ko' Wko Pko).
+  Qed.
+
+  (* ---------------- G1: the plain function versus the recorder run ---------------- *)
+  Local Notation vl := (@val R).
+  Definition wfv (v : vl) : Prop := wfm (as_mv v).
+  Section G1.
+  Variable venv' : list (list R).      (* the value lists the compiled function is called with *)
+  Definition DS (v : vl) (r : rv) : Prop :=
+    match r with
+    | RNum c => v = VNum c
+    | RRec ks t => wfk ks /\ exists vs, run venv' t = Ok vs /\ length vs = length ks /\ Permutation (as_mv v) (combine ks vs)
+    end.
+  Definition is_rnum (r : rv) : bool := match r with RNum _ => true | RRec _ _ => false end.
+  (* what one step of the simulation delivers: the plain value is well-formed; if the recorder returns, its
+     value denotes the same multivector and has the expected kind; if it raises, the construct is not in the
+     supported fragment *)
+  Definition Step (v' : vl) (rq : res rv) (nb sup : bool) : Prop :=
+    wfv v' /\ match rq with Ok q => DS v' q /\ is_rnum q = nb | Err _ => sup = false end.
+
+  Lemma Step_weaken v' rq nb sup b : Step v' rq nb sup -> Step v' rq nb (b && sup).
+  Proof. intros [H1 H2]. split; [exact H1|]. destruct rq; [exact H2 | subst; apply andb_false_r]. Qed.
+
+  Lemma DS_perm v v0 ks t : DS v (RRec ks t) -> Permutation (as_mv v0) (as_mv v) -> DS v0 (RRec ks t).
+  Proof.
+    intros [Hk [vs [Hr [Hl Hp]]]] Hq. split; [exact Hk|]. exists vs. repeat split; try assumption.
+    eapply Permutation_trans; eassumption.
+  Qed.
+  Lemma wfv_num c : wfv (VNum c).
+  Proof. apply wfm_scalar. Qed.
+
+  (* an operator node of the tape against the operator call of the plain function *)
+  Lemma ds_node1 op v ks t m : wfv v -> DS v (RRec ks t) -> call op [as_mv v] = Ok m ->
+    wfm m /\ exists q, rec_unary opd op ks t = Ok q /\ DS (VMv m) q /\ is_rnum q = false.
+  Proof.
+    intros Hw [Hk [a [Hr [Hl Hp]]]] Hc.
+    destruct (call_wf op [as_mv v] m) as [Hwm _]; [fa; exact Hw | exact Hc |].
+    split; [exact Hwm|].
+    destruct (callnode1 op (as_mv v) m ks a Hw Hk Hl Hp Hc) as [ko [f [vs [E1 [E2 [E3 [E4 E5]]]]]]].
+    exists (RRec ko (TOp op [ks] [t])). unfold rec_unary. rewrite E1. cbn [bind]. split; [reflexivity|].
+    split; [|reflexivity]. split; [exact E4|]. exists vs. rewrite run_TOp1, E1. cbn [bind]. rewrite Hr. cbn [bind].
+    repeat split; assumption.
+  Qed.
+  Lemma ds_node2 op v1 v2 ks1 t1 r2 m : wfv v1 -> wfv v2 -> DS v1 (RRec ks1 t1) -> DS v2 r2 ->
+    call op [as_mv v1; as_mv v2] = Ok m ->
+    wfm m /\ exists q, rec_binary opd op ks1 t1 r2 = Ok q /\ DS (VMv m) q /\ is_rnum q = false.
+  Proof.
+    intros Hw1 Hw2 [Hk1 [a1 [Hr1 [Hl1 Hp1]]]] H2 Hc.
+    destruct (call_wf op [as_mv v1; as_mv v2] m) as [Hwm _]; [fa; assumption | exact Hc |].
+    split; [exact Hwm|].
+    assert (Hgen : forall ks2 t2 a2, wfk ks2 -> run venv' t2 = Ok a2 -> length a2 = length ks2 ->
+              Permutation (as_mv v2) (combine ks2 a2) ->
+              exists q, ('(ko, _) <- opd op [ks1; ks2] ;; Ok (RRec ko (TOp op [ks1; ks2] [t1; t2]))) = Ok q /\
+                        DS (VMv m) q /\ is_rnum q = false).
+    { intros ks2 t2 a2 Hk2 Hr2 Hl2 Hp2.
+      destruct (callnode2 op (as_mv v1) (as_mv v2) m ks1 a1 ks2 a2 Hw1 Hk1 Hl1 Hp1 Hw2 Hk2 Hl2 Hp2 Hc)
+        as [ko [f [vs [E1 [E2 [E3 [E4 E5]]]]]]].
+      exists (RRec ko (TOp op [ks1; ks2] [t1; t2])). rewrite E1. cbn [bind]. split; [reflexivity|].
+      split; [|reflexivity]. split; [exact E4|]. exists vs. rewrite run_TOp2, E1. cbn [bind]. rewrite Hr1, Hr2. cbn [bind].
+      repeat split; assumption. }
+    destruct r2 as [c|ks2 t2]; cbn [DS] in H2.
+    - subst v2. cbn [rec_binary]. apply (Hgen [0] (TNum c) [c] wfk_0); [reflexivity | reflexivity | apply Permutation_refl].
+    - destruct H2 as [Hk2 [a2 [Hr2 [Hl2 Hp2]]]]. cbn [rec_binary]. exact (Hgen ks2 t2 a2 Hk2 Hr2 Hl2 Hp2).
+  Qed.
+
+  Lemma Step_ok v' q nb sup : wfv v' -> DS v' q -> is_rnum q = nb -> Step v' (Ok q) nb sup.
+  Proof. intros. split; [assumption | split; assumption]. Qed.
+  Lemma call_wfv op xs m : Forall wfm xs -> call op xs = Ok m -> wfv (VMv m).
+  Proof. intros H1 H2. exact (proj1 (call_wf op xs m H1 H2)). Qed.
+
+  (* node lemmas with the result transported along a storage permutation *)
+  Lemma ds_node1' op v ks t m v0 sup : wfv v -> DS v (RRec ks t) -> call op [as_mv v] = Ok m ->
+    Permutation (as_mv v0) m -> wfv v0 -> Step v0 (rec_unary opd op ks t) false sup.
+  Proof.
+    intros Hw Hd Hc Hp Hw0. destruct (ds_node1 op v ks t m Hw Hd Hc) as [_ [q [Eq [Dq Sq]]]]. rewrite Eq.
+    destruct q as [c|kq tq]; [discriminate|]. apply Step_ok; [exact Hw0 | exact (DS_perm (VMv m) v0 kq tq Dq Hp) | reflexivity].
+  Qed.
+  Lemma ds_node2' op v1 v2 ks1 t1 r2 m v0 sup : wfv v1 -> wfv v2 -> DS v1 (RRec ks1 t1) -> DS v2 r2 ->
+    call op [as_mv v1; as_mv v2] = Ok m -> Permutation (as_mv v0) m -> wfv v0 ->
+    Step v0 (rec_binary opd op ks1 t1 r2) false sup.
+  Proof.
+    intros Hw1 Hw2 Hd1 Hd2 Hc Hp Hw0. destruct (ds_node2 op v1 v2 ks1 t1 r2 m Hw1 Hw2 Hd1 Hd2 Hc) as [_ [q [Eq [Dq Sq]]]].
+    rewrite Eq. destruct q as [c|kq tq]; [discriminate|].
+    apply Step_ok; [exact Hw0 | exact (DS_perm (VMv m) v0 kq tq Dq Hp) | reflexivity].
+  Qed.
+
+  Lemma ds_meth1 m v r v' : wfv v -> DS v r ->
+    mv_meth1 opd mv_methods m v = Ok v' ->
+    Step v' (rec_meth1 opd tape_methods m r) false (negb (is_rnum r) && is_un m).
+  Proof.
+    intros Hw Hd H. destruct v as [a|x]; [discriminate|]. cbn [mv_meth1] in H.
+    destruct (mlookup m mv_methods) as [[[op sw] ar]|] eqn:Em; [|discriminate].
+    destruct ar as [|[|ar]]; try discriminate. inv_bindn H as r0 Hr0. inversion H; subst v'. clear H.
+    destruct r as [c|ks t]; [cbn in Hd; discriminate|].
+    cbn [rec_meth1 is_rnum negb andb]. unfold is_un.
+    destruct (mlookup m tape_methods) as [[[op' sw'] ar']|] eqn:Et.
+    - destruct (tables_agree _ _ _ _ _ _ _ Em Et) as [E1 E2]. subst op' ar'.
+      apply (ds_node1' op (VMv x) ks t r0 (VMv r0)); try assumption; [apply Permutation_refl|].
+      apply (call_wfv op [x]); [fa; exact Hw | exact Hr0].
+    - split; [|reflexivity]. apply (call_wfv op [x]); [fa; exact Hw | exact Hr0].
+  Qed.
+
+  Lemma ds_meth2 m v1 v2 r1 r2 v' : wfv v1 -> wfv v2 -> DS v1 r1 -> DS v2 r2 -> noswap_m m = true ->
+    mv_meth2 opd mv_methods m v1 v2 = Ok v' ->
+    Step v' (rec_meth2 opd tape_methods m r1 r2) false (negb (is_rnum r1) && is_bin m).
+  Proof.
+    intros Hw1 Hw2 Hd1 Hd2 Hns H. destruct v1 as [a|x]; [discriminate|]. cbn [mv_meth2] in H. unfold noswap_m in Hns.
+    destruct (mlookup m mv_methods) as [[[op sw] ar]|] eqn:Em; [|discriminate].
+    destruct sw; [discriminate|].
+    destruct ar as [|[|[|ar]]]; try discriminate. inv_bindn H as r0 Hr0. inversion H; subst v'. clear H.
+    destruct r1 as [c|ks t]; [cbn in Hd1; discriminate|].
+    assert (Hwr : wfv (VMv r0)) by (apply (call_wfv op [x; as_mv v2]); [fa; assumption | exact Hr0]).
+    cbn [rec_meth2 is_rnum negb andb]. unfold is_bin.
+    destruct (mlookup m tape_methods) as [[[op' sw'] ar']|] eqn:Et.
+    - destruct (tables_agree _ _ _ _ _ _ _ Em Et) as [E1 E2]. subst op' ar'.
+      apply (ds_node2' op (VMv x) v2 ks t r2 r0 (VMv r0)); try assumption. apply Permutation_refl.
+    - split; [exact Hwr | reflexivity].
+  Qed.
+
+  Lemma lk_un m op : In (m, op) [("__neg__", "neg"); ("__invert__", "reverse"); ("inv", "inv"); ("normsq", "normsq");
+      ("sqrt", "sqrt"); ("polarity", "polarity"); ("unpolarity", "unpolarity"); ("hodge", "hodge"); ("unhodge", "unhodge")] ->
+    is_un m = true.
+  Proof. intros H. unfold is_un. rewrite (proj2 (lk_mv_un m op H)). reflexivity. Qed.
+
+  Lemma ds_prefix u v r v' : wfv v -> DS v r ->
+    mv_prefix O opd mv_methods u v = Ok v' ->
+    Step v' (rec_prefix O opd tape_methods u r) (is_rnum r && is_neg u) (if is_rnum r then is_neg u else true).
+  Proof.
+    intros Hw Hd H. destruct r as [c|ks t].
+    - cbn in Hd. subst v. cbn in H |- *. destruct u; [|discriminate]. inversion H; subst.
+      apply Step_ok; [apply wfv_num | reflexivity | reflexivity].
+    - cbn [is_rnum andb]. cbn [rec_prefix]. destruct v as [a|x].
+      + cbn in H. destruct u; [|discriminate]. inversion H; subst v'. clear H.
+        cbn [pdunder rec_meth1]. rewrite (proj2 (lk_mv_un "__neg__" "neg" (or_introl eq_refl))).
+        apply (ds_node1' "neg" (VNum a) ks t [(0, ropp a)] (VNum (ropp a))); try assumption.
+        * apply (ok_s_neg Hopd).
+        * apply Permutation_refl.
+      + cbn [mv_prefix] in H. pose proof (ds_meth1 (pdunder u) (VMv x) (RRec ks t) v' Hw Hd H) as St.
+        cbn [is_rnum negb andb] in St.
+        assert (Eu : is_un (pdunder u) = true) by (destruct u; [apply (lk_un _ "neg") | apply (lk_un _ "reverse")]; cbn; auto).
+        rewrite Eu in St. destruct St as [S1 S2]. split; [exact S1|]. destruct (rec_meth1 opd tape_methods (pdunder u) (RRec ks t)); [exact S2 | discriminate].
+  Qed.
+
+  (* l o r with a recorder on the left: TapeRecorder.__o__(l, r) *)
+  Lemma ds_infix_rec o v1 v2 ks1 t1 r2 v' sup : wfv v1 -> wfv v2 -> DS v1 (RRec ks1 t1) -> DS v2 r2 ->
+    mv_infix O opd mv_methods o v1 v2 = Ok v' ->
+    Step v' (rec_binary opd (opname o) ks1 t1 r2) false sup.
+  Proof.
+    intros Hw1 Hw2 Hd1 Hd2 H. destruct v1 as [a|x].
+    - destruct v2 as [b|y].
+      + (* coefficient o coefficient: Python arithmetic versus the scalar operator *)
+        cbn [mv_infix] in H.
+        destruct o; try discriminate; inversion H; subst v'; clear H; cbn [opname].
+        * apply (ds_node2' "add" (VNum a) (VNum b) ks1 t1 r2 [(0, radd a b)] (VNum (radd a b))); try assumption;
+            [apply (ok_s_add Hopd) | apply Permutation_refl].
+        * apply (ds_node2' "sub" (VNum a) (VNum b) ks1 t1 r2 [(0, rsub a b)] (VNum (rsub a b))); try assumption;
+            [apply (ok_s_sub Hopd) | apply Permutation_refl].
+        * apply (ds_node2' "gp" (VNum a) (VNum b) ks1 t1 r2 [(0, rmul a b)] (VNum (rmul a b))); try assumption;
+            [apply (ok_s_gp Hopd) | apply Permutation_refl].
+      + (* coefficient o multivector: MultiVector's reflected member *)
+        cbn [mv_infix mv_meth2] in H. rewrite lk_mv_rdunder in H. inv_bindn H as m Hm. inversion H; subst v'; clear H.
+        destruct o; cbn [opname] in *;
+          try (apply (ds_node2' _ (VNum a) (VMv y) ks1 t1 r2 m (VMv m)); try assumption;
+               [apply Permutation_refl | (eapply call_wfv; [|exact Hm]; fa; assumption)]).
+        (* + : MultiVector computes y + number *)
+        destruct (ok_add_comm Hopd a y m Hw2 Hm) as [m' [Hm' Hp]].
+        apply (ds_node2' "add" (VNum a) (VMv y) ks1 t1 r2 m' (VMv m)); try assumption.
+        (eapply call_wfv; [|exact Hm]; fa; assumption).
+    - cbn [mv_infix mv_meth2] in H. rewrite lk_mv_dunder in H. inv_bindn H as m Hm. inversion H; subst v'; clear H.
+      apply (ds_node2' _ (VMv x) v2 ks1 t1 r2 m (VMv m)); try assumption;
+        [apply Permutation_refl | (eapply call_wfv; [|exact Hm]; fa; assumption)].
+  Qed.
+
+  Lemma lk_tp_radd : mlookup "__radd__" tape_methods = Some ("add", false, 2%nat).
+  Proof. exact (lk_tp_rdunder IAdd). Qed.
+  Lemma as_mv_eq_perm (v0 : vl) m : as_mv v0 = m -> Permutation (as_mv v0) m.
+  Proof. intros E. rewrite E. apply Permutation_refl. Qed.
+
+  (* number o r with a number LITERAL on the left and a recorder on the right: the reflected members of
+     TapeRecorder: __radd__, __rmul__, __rxor__ (partialmethods: self op number), __rsub__ (other + (-self)) *)
+  Lemma ds_infix_lit o a v2 ks2 t2 v' : wfv v2 -> DS v2 (RRec ks2 t2) ->
+    mv_infix O opd mv_methods o (VNum a) v2 = Ok v' ->
+    Step v' (rec_infix O opd tape_methods o (RNum a) (RRec ks2 t2)) false
+         (match o with IAdd | ISub | IMul | IXor => true | _ => false end).
+  Proof.
+    intros Hw2 Hd2 H. cbn [rec_infix]. rewrite lk_tp_rdunder.
+    assert (Hwa : wfv (VNum a)) by apply wfv_num.
+    assert (Hda : DS (VNum a) (RNum a)) by reflexivity.
+    destruct v2 as [b|y].
+    - (* the right operand is a coefficient: Python arithmetic on the plain side *)
+      cbn [mv_infix] in H.
+      destruct o; try discriminate; inversion H; subst v'; clear H.
+      + cbn [rec_meth2]. rewrite lk_tp_rdunder.
+        apply (ds_node2' "add" (VNum b) (VNum a) ks2 t2 (RNum a) [(0, radd b a)] (VNum (radd a b))); try assumption.
+        * apply (ok_s_add Hopd).
+        * apply as_mv_eq_perm. cbn. f_equal. f_equal. ring.
+      + destruct (ds_node1 "neg" (VNum b) ks2 t2 [(0, ropp b)] Hw2 Hd2 (ok_s_neg Hopd b)) as [Hwn [qn [En [Dn Sn]]]].
+        cbn [rec_meth1]. rewrite (proj2 (lk_mv_un "__neg__" "neg" (or_introl eq_refl))). rewrite En. cbn [bind].
+        rewrite lk_tp_radd. destruct qn as [c|kn tn]; [discriminate|]. cbn [rec_meth2]. rewrite lk_tp_radd.
+        apply (ds_node2' "add" (VMv [(0, ropp b)]) (VNum a) kn tn (RNum a) [(0, radd (ropp b) a)] (VNum (rsub a b))); try assumption.
+        * apply (ok_s_add Hopd).
+        * apply as_mv_eq_perm. cbn. f_equal. f_equal. ring.
+      + cbn [rec_meth2]. rewrite lk_tp_rdunder.
+        apply (ds_node2' "gp" (VNum b) (VNum a) ks2 t2 (RNum a) [(0, rmul b a)] (VNum (rmul a b))); try assumption.
+        * apply (ok_s_gp Hopd).
+        * apply as_mv_eq_perm. cbn. f_equal. f_equal. ring.
+    - (* the right operand is a multivector: MultiVector's reflected member on the plain side *)
+      cbn [mv_infix mv_meth2] in H. rewrite lk_mv_rdunder in H. inv_bindn H as m Hm. inversion H; subst v'; clear H.
+      assert (Hwm : wfv (VMv m)) by (destruct o; (eapply call_wfv; [|exact Hm]; fa; assumption)).
+      destruct o; cbn [opname] in *; try (split; [exact Hwm | reflexivity]).
+      + (* number + y  ->  y.__radd__(number): add(y, number) on both sides *)
+        cbn [rec_meth2]. rewrite lk_tp_rdunder.
+        apply (ds_node2' "add" (VMv y) (VNum a) ks2 t2 (RNum a) m (VMv m)); try assumption. apply Permutation_refl.
+      + (* number - y  ->  number + (-y) *)
+        destruct (ok_rsub Hopd a y m Hw2 Hm) as [n [m' [Hn [Hm' Hp]]]].
+        destruct (ds_node1 "neg" (VMv y) ks2 t2 n Hw2 Hd2 Hn) as [Hwn [qn [En [Dn Sn]]]].
+        cbn [rec_meth1]. rewrite (proj2 (lk_mv_un "__neg__" "neg" (or_introl eq_refl))). rewrite En. cbn [bind].
+        rewrite lk_tp_radd. destruct qn as [c|kn tn]; [discriminate|]. cbn [rec_meth2]. rewrite lk_tp_radd.
+        apply (ds_node2' "add" (VMv n) (VNum a) kn tn (RNum a) m' (VMv m)); try assumption.
+      + (* number * y  ->  y * number *)
+        destruct (ok_gp_comm Hopd a y m Hw2 Hm) as [m' [Hm' Hp]].
+        cbn [rec_meth2]. rewrite lk_tp_rdunder.
+        apply (ds_node2' "gp" (VMv y) (VNum a) ks2 t2 (RNum a) m' (VMv m)); try assumption.
+      + (* number ^ y  ->  y ^ number *)
+        destruct (ok_op_comm Hopd a y m Hw2 Hm) as [m' [Hm' Hp]].
+        cbn [rec_meth2]. rewrite lk_tp_rdunder.
+        apply (ds_node2' "op" (VMv y) (VNum a) ks2 t2 (RNum a) m' (VMv m)); try assumption.
+  Qed.
+
+  Lemma ds_infix o v1 v2 r1 r2 v' : wfv v1 -> wfv v2 -> DS v1 r1 -> DS v2 r2 ->
+    mv_infix O opd mv_methods o v1 v2 = Ok v' ->
+    Step v' (rec_infix O opd tape_methods o r1 r2) (is_rnum r1 && is_rnum r2) (sup_infix o (is_rnum r1) (is_rnum r2)).
+  Proof.
+    intros Hw1 Hw2 Hd1 Hd2 H. destruct r1 as [a|ks1 t1].
+    - cbn in Hd1. subst v1. destruct r2 as [b|ks2 t2].
+      + cbn in Hd2. subst v2. cbn in H |- *.
+        destruct o; try discriminate; inversion H; subst; (apply Step_ok; [apply wfv_num | reflexivity | reflexivity]).
+      + cbn [is_rnum andb sup_infix]. apply (ds_infix_lit o a v2); assumption.
+    - cbn [is_rnum andb sup_infix]. cbn [rec_infix rec_meth2]. rewrite lk_tp_dunder.
+      apply (ds_infix_rec o v1 v2); assumption.
+  Qed.
+
+  Lemma step_ok_inv v' rq nb : Step v' rq nb true -> wfv v' /\ exists q, rq = Ok q /\ DS v' q /\ is_rnum q = nb.
+  Proof. intros [H1 H2]. split; [exact H1|]. destruct rq as [q|e]; [exists q; tauto | discriminate]. Qed.
+  Lemma is_bin_gp : is_bin "gp" = true. Proof. unfold is_bin. rewrite (proj2 lk_gp). reflexivity. Qed.
+  Lemma noswap_gp : noswap_m "gp" = true. Proof. unfold noswap_m. rewrite (proj1 lk_gp). reflexivity. Qed.
+
+  Lemma ds_pow_loop n x0 ks0 t0 : wfv x0 -> DS x0 (RRec ks0 t0) ->
+    forall acc racc v', wfv acc -> DS acc racc -> is_rnum racc = false ->
+      pow_loop n (fun r => mv_meth2 opd mv_methods "gp" r x0) acc = Ok v' ->
+      Step v' (pow_loop n (fun a => rec_meth2 opd tape_methods "gp" a (RRec ks0 t0)) racc) false true.
+  Proof.
+    intros Hw0 Hd0. induction n as [|n IH]; intros acc racc v' Hwa Hda Hs H; cbn [pow_loop] in H |- *.
+    - inversion H; subst. apply Step_ok; assumption.
+    - inv_bindn H as r1 Hr1.
+      pose proof (ds_meth2 "gp" acc x0 racc (RRec ks0 t0) r1 Hwa Hw0 Hda Hd0 noswap_gp Hr1) as St.
+      rewrite Hs, is_bin_gp in St. cbn [negb andb] in St.
+      destruct (step_ok_inv _ _ _ St) as [Hw1 [q [Eq [Dq Sq]]]]. rewrite Eq. cbn [bind].
+      exact (IH r1 q v' Hw1 Dq Sq H).
+  Qed.
+
+  Lemma ds_pow n v r v' : wfv v -> DS v r -> mv_pow O opd mv_methods v n = Ok v' ->
+    Step v' (rec_pow opd tape_methods r n) false (negb (is_rnum r)).
+  Proof.
+    intros Hw Hd H. destruct v as [a|x]; [discriminate|]. destruct r as [c|ks t]; [cbn in Hd; discriminate|].
+    cbn [mv_pow] in H. cbn [rec_pow is_rnum negb]. destruct (n =? 0).
+    - inversion H; subst. apply Step_ok; [apply wfm_scalar | | reflexivity].
+      split; [exact wfk_0|]. exists [rI]. cbn. repeat split; auto.
+    - inv_bindn H as x0 Hx0. destruct (n <? 0).
+      + pose proof (ds_meth1 "inv" (VMv x) (RRec ks t) x0 Hw Hd Hx0) as St.
+        rewrite (lk_un "inv" "inv") in St by (cbn; auto 10). cbn [is_rnum negb andb] in St.
+        destruct (step_ok_inv _ _ _ St) as [Hw1 [q [Eq [Dq Sq]]]]. rewrite Eq. cbn [bind].
+        destruct q as [c|k0 t0]; [discriminate|].
+        exact (ds_pow_loop _ x0 k0 t0 Hw1 Dq x0 (RRec k0 t0) v' Hw1 Dq eq_refl H).
+      + inversion Hx0; subst x0. cbn [bind].
+        exact (ds_pow_loop _ (VMv x) ks t Hw Hd (VMv x) (RRec ks t) v' Hw Hd eq_refl H).
+  Qed.
+
+  (* grade selection *)
+  Lemma in_keys_ex {V} (x : mv V) k : In k (keys x) -> exists v, In (k, v) x.
+  Proof. intros H. apply in_map_iff in H. destruct H as [[k0 v] [E Hin]]. cbn in E. subst. eauto. Qed.
+  Lemma in_keys_of {V} (x : mv V) k v : In (k, v) x -> In k (keys x).
+  Proof. intros H. apply in_map_iff. exists (k, v). auto. Qed.
+
+  Lemma ds_grade gs v r v' : wfv v -> DS v r -> mv_grade O A v gs = Ok v' ->
+    Step v' (rec_grade A r gs) false (negb (is_rnum r)).
+  Proof.
+    intros Hw Hd H. destruct v as [a|x]; [discriminate|]. destruct r as [c|ks t]; [cbn in Hd; discriminate|].
+    cbn [mv_grade] in H. inv_bindn H as r0 Hr0. inversion H; subst v'. clear H.
+    unfold grade_sel in Hr0. inv_bindn Hr0 as bb Hbb. inversion Hr0; subst r0. clear Hr0.
+    cbn [rec_grade is_rnum negb]. rewrite Hbb. cbn [bind].
+    destruct Hd as [Hk [a [Hr [Hl Hp]]]]. cbn [as_mv] in Hp, Hw.
+    pose proof (Hgr gs bb Hbb) as Hnb.
+    set (P := fun k => zin k bb).
+    set (r0 := flat_map (fun k => if zin k (keys x) then [(k, coeff O k x)] else []) bb).
+    assert (Hin0 : forall k v, In (k, v) r0 <-> In k bb /\ In (k, v) x).
+    { intros k v. unfold r0. rewrite in_flat_map. split.
+      - intros [k0 [Hk0 Hi]]. destruct (zin k0 (keys x)) eqn:Ez; [|contradiction].
+        destruct Hi as [E|[]]. inversion E; subst k0 v. split; [exact Hk0|].
+        apply zin_true_iff in Ez. destruct (in_keys_ex x k Ez) as [v0 Hv0].
+        rewrite (coeff_in R rO rI radd rmul rsub ropp k v0 x (proj1 Hw) Hv0). exact Hv0.
+      - intros [Hb Hx]. exists k. split; [exact Hb|].
+        assert (Ez : zin k (keys x) = true) by (apply zin_true_iff; eapply in_keys_of; exact Hx).
+        rewrite Ez. left. rewrite (coeff_in R rO rI radd rmul rsub ropp k v x (proj1 Hw) Hx). reflexivity. }
+    assert (Hk0 : keys r0 = filter (fun k => zin k (keys x)) bb).
+    { unfold r0. clear. induction bb as [|k bb IH]; cbn; [reflexivity|].
+      unfold keys in *. rewrite map_app, IH. destruct (zin k (map fst x)); reflexivity. }
+    assert (Hw0 : wfm r0).
+    { unfold wfm. rewrite Hk0. split; [apply NoDup_filter; exact Hnb|].
+      intros k Hk1. apply filter_In in Hk1. destruct Hk1 as [_ Hz]. apply zin_true_iff in Hz. apply (proj2 Hw). exact Hz. }
+    apply Step_ok; [exact Hw0 | | reflexivity].
+    rewrite (enum_filter_keys P). split; [apply wfk_filter; exact Hk|].
+    exists (selv P ks a). rewrite run_TSel, Hr. cbn [bind].
+    split; [exact (enum_filter_vals0 P ks a Hl)|].
+    destruct (selv_combine P ks a Hl) as [E1 E2]. split; [exact E2|]. rewrite E1. cbn [as_mv].
+    apply NoDup_Permutation.
+    - apply NoDup_keys_NoDup. apply Hw0.
+    - apply NoDup_filter. apply NoDup_keys_NoDup. rewrite keys_combine by exact Hl. apply Hk.
+    - intros [k v]. rewrite Hin0, filter_In. cbn [fst]. unfold P. rewrite zin_true_iff. split.
+      + intros [Hb Hx]. split; [eapply Permutation_in; [exact Hp | exact Hx] | exact Hb].
+      + intros [Hc Hb]. split; [exact Hb | eapply Permutation_in; [apply Permutation_sym; exact Hp | exact Hc]].
+  Qed.
+
+  (* coefficient access *)
+  Lemma ds_getattr nm v r v' : wfv v -> DS v r -> mv_getattr O A v nm = Ok v' ->
+    Step v' (rec_getattr A r nm) false (negb (is_rnum r)).
+  Proof.
+    intros Hw Hd H. destruct v as [a0|x]; [discriminate|]. destruct r as [c|ks t]; [cbn in Hd; discriminate|].
+    cbn [mv_getattr] in H. cbn [rec_getattr is_rnum negb].
+    assert (Hzero : Step (VNum rO) (Ok (RRec [0] (@TZero R))) false true).
+    { apply Step_ok; [apply wfv_num | | reflexivity]. split; [exact wfk_0|]. exists [rO]. cbn. repeat split; auto. }
+    destruct (blade2canon A nm) as [[cn|] swaps]; [|inversion H; subst; exact Hzero].
+    destruct (canon2bin A cn) as [b|]; [|inversion H; subst; exact Hzero].
+    destruct Hd as [Hk [a [Hr [Hl Hp]]]]. cbn [as_mv] in Hp, Hw.
+    assert (Hpk : Permutation (keys x) ks).
+    { rewrite <- (keys_combine ks a Hl). apply perm_keys. exact Hp. }
+    destruct (zindex b (keys x)) as [idx|] eqn:Hz.
+    - destruct (zindex b ks) as [idx'|] eqn:Hz'; [|apply (zindex_perm b (keys x) ks Hpk) in Hz'; congruence].
+      destruct (nth_error (vals x) idx) as [c0|] eqn:Hc0; [|discriminate]. inversion H; subst v'. clear H.
+      destruct (idx_value b (keys x) idx (vals x) Hz) as [v0 [Hv0 Hin0]]; [rewrite length_vals, length_keys; reflexivity|].
+      rewrite combine_keys_vals in Hin0. rewrite Hc0 in Hv0. inversion Hv0; subst v0.
+      destruct (idx_value b ks idx' a Hz' Hl) as [v1 [Hv1 Hin1]].
+      assert (c0 = v1).
+      { eapply (in_keys_unique (combine ks a) b); [rewrite keys_combine by exact Hl; apply Hk | | exact Hin1].
+        eapply Permutation_in; [exact Hp | exact Hin0]. }
+      subst v1. apply Step_ok; [apply wfv_num | | reflexivity]. split; [exact wfk_0|].
+      eexists. rewrite run_TIdx, Hr. cbn [bind]. rewrite Hv1. cbn [of_opt bind]. split; [reflexivity|]. split; [reflexivity|].
+      cbn. rewrite <- Z.negb_odd. destruct (Z.odd swaps); apply Permutation_refl.
+    - assert (Hz' : zindex b ks = None) by (apply (zindex_perm b (keys x) ks Hpk); exact Hz). rewrite Hz'.
+      inversion H; subst; exact Hzero.
+  Qed.
+
+  Lemma ds_dual un k v r v' : wfv v -> DS v r -> mv_dual A opd mv_methods un v k = Ok v' ->
+    Step v' (rec_dual A opd tape_methods un r k) false (negb (is_rnum r)).
+  Proof.
+    intros Hw Hd H. destruct v as [a0|x]; [discriminate|]. destruct r as [c|ks t]; [cbn in Hd; discriminate|].
+    cbn [mv_dual] in H. cbn [rec_dual is_rnum negb]. inv_bindn H as m Hm. rewrite Hm. cbn [bind].
+    pose proof (ds_meth1 m (VMv x) (RRec ks t) v' Hw Hd H) as St. cbn [is_rnum negb andb] in St.
+    assert (Em : is_un m = true).
+    { unfold dual_member in Hm.
+      destruct un, k; cbn in Hm;
+        repeat match type of Hm with context [if ?c then _ else _] => destruct c end;
+        try discriminate; inversion Hm; subst m;
+        first [apply (lk_un _ "polarity") | apply (lk_un _ "unpolarity") | apply (lk_un _ "hodge") | apply (lk_un _ "unhodge")];
+        cbn; auto 10. }
+    rewrite Em in St. exact St.
+  Qed.
+
+  Lemma ds_norm v r v' : wfv v -> DS v r -> mv_norm opd mv_methods v = Ok v' ->
+    Step v' (rec_norm opd tape_methods r) false (negb (is_rnum r)).
+  Proof.
+    intros Hw Hd H. unfold mv_norm in H. inv_bindn H as n Hn. unfold rec_norm.
+    destruct v as [a0|x]; [discriminate|]. destruct r as [c|ks t]; [cbn in Hd; discriminate|].
+    pose proof (ds_meth1 "normsq" (VMv x) (RRec ks t) n Hw Hd Hn) as St.
+    rewrite (lk_un "normsq" "normsq") in St by (cbn; auto 10). cbn [is_rnum negb andb] in St.
+    destruct (step_ok_inv _ _ _ St) as [Hw1 [q [Eq [Dq Sq]]]]. rewrite Eq. cbn [bind is_rnum negb].
+    pose proof (ds_meth1 "sqrt" n q v' Hw1 Dq H) as St2.
+    rewrite (lk_un "sqrt" "sqrt"), Sq in St2 by (cbn; auto 10). exact St2.
+  Qed.
+
+  Lemma ds_normalized v r v' : wfv v -> DS v r -> mv_normalized O opd mv_methods v = Ok v' ->
+    Step v' (rec_normalized O opd tape_methods r) false (negb (is_rnum r)).
+  Proof.
+    intros Hw Hd H. destruct v as [a0|x]; [discriminate|]. destruct r as [c|ks t]; [cbn in Hd; discriminate|].
+    cbn [mv_normalized] in H. cbn [rec_normalized is_rnum negb]. inv_bindn H as n Hn.
+    pose proof (ds_norm (VMv x) (RRec ks t) n Hw Hd Hn) as St. cbn [is_rnum negb] in St.
+    destruct (step_ok_inv _ _ _ St) as [Hw1 [q [Eq [Dq Sq]]]]. rewrite Eq. cbn [bind].
+    pose proof (ds_infix IDiv (VMv x) n (RRec ks t) q v' Hw Hw1 Hd Dq H) as St2.
+    cbn [is_rnum andb sup_infix] in St2. exact St2.
+  Qed.
+  End G1.
 End Abstract.
